@@ -61,6 +61,22 @@ func freeAddr() string {
 	return a
 }
 
+// rewriteKeepingMtime replaces the content of a definition file the way `cp -p` / `rsync -t` / a restored backup do:
+// the modification time stays what it was. A loader that decides from size and mtime whether a file changed must
+// not miss such an edit (many single-field edits do not change the size either).
+func rewriteKeepingMtime(path, content string) {
+	var mtime time.Time
+	if st, err := os.Stat(path); err == nil {
+		mtime = st.ModTime()
+	}
+	if err := os.WriteFile(path, []byte(content), 0o644); err != nil {
+		panic(err)
+	}
+	if !mtime.IsZero() {
+		_ = os.Chtimes(path, mtime, mtime)
+	}
+}
+
 func startApp(files map[string]string, extraEnv ...string) *appProc {
 	dir, err := os.MkdirTemp("", "verif-appx-")
 	if err != nil {
@@ -275,7 +291,8 @@ func runAppxHistories() appxResult {
 	defs := map[string]definition.PipelineDef{
 		"X": {Concurrency: 3, Tasks: map[string]definition.TaskDef{"xa": {Script: []string{"true"}}}},
 		"Y": {Concurrency: 3, Tasks: map[string]definition.TaskDef{"ya": {Script: []string{"true"}}, "yb": {Script: []string{"true"}, DependsOn: []string{"ya"}}}},
-		"Z": {Concurrency: 3, Env: map[string]string{"E": "1"}, Tasks: map[string]definition.TaskDef{"za": {Script: []string{"true"}}}},
+		// Z has the same size on disk as X (and the rewrites keep the mtime): X -> Z -> X are edits only the content shows
+		"Z": {Concurrency: 3, Tasks: map[string]definition.TaskDef{"za": {Script: []string{"true"}}}},
 	}
 	tasksOf := func(n string) string {
 		var ns []string
@@ -312,7 +329,7 @@ func runAppxHistories() appxResult {
 		a := startApp(map[string]string{"pipelines.yml": yamlOfDefs(defs[h[0]])})
 		path := filepath.Join(a.dir, "defs", "pipelines.yml")
 		for i := 1; i < len(h); i++ {
-			os.WriteFile(path, []byte(yamlOfDefs(defs[h[i]])), 0o644)
+			rewriteKeepingMtime(path, yamlOfDefs(defs[h[i]]))
 			got := a.reload()
 			res.Cases++
 			res.Distinct++
@@ -391,7 +408,7 @@ func runAppxFieldEdits(part, parts int) appxResult {
 	path := filepath.Join(a.dir, "defs", "pipelines.yml")
 	cur := normalizeDef(base)
 	apply := func(d definition.PipelineDef, what string) {
-		os.WriteFile(path, []byte(yamlOfDefs(d)), 0o644)
+		rewriteKeepingMtime(path, yamlOfDefs(d))
 		got := a.reload()
 		res.Cases++
 		want := "changed"
